@@ -9,6 +9,7 @@ Direct oracle (= the statement, on the REAL validator):
   * one labelled violation of specification rule R (gen/violations.py)         => >= 1 error, one of
     them held by the visitor INSTANCE of R (chain rebuilt exactly as `default_validator` does;
     no message text is read)
+  * the verdict does not depend on documents validated earlier in the process (history pass)
   * verdict unchanged under: reorder definitions / selections / arguments, injective renaming of
     aliases / fragments / variables, re-spelling of whitespace, commas, comments.
 Correspondence (Lean model `PyGqlModel/Validate/*`, driver `drv_C06`): see `C06_model.py`.
@@ -373,12 +374,64 @@ def run(ctx):
         ctx.stat("schema-size=%d" % size)
         for _ in range(docs_per_world):
             one_document(ctx, world, 1 + ctx.rng.randint(0, 2), collect)
+    history_pass(ctx, collect)
     try:
         from corr import C06_model
     except ImportError:
         C06_model = None
     if C06_model is not None:
         C06_model.run(ctx, collect)
+
+
+HISTORY_NAMES = ["ZzUndefined", "Zx", "A", "B", "Fr1", "Fr2", "Y", "Zu", "Zu2", "P", "Q", "Zl", "Zk", "L", "K"]
+
+
+def history_text(world):
+    """a VALID document defining the names that violating documents of the run leave undefined / use once:
+    validated right before a judged document, it must not influence the verdict of that document"""
+    root = world.schema.query_type.name
+    frs = " ".join("fragment %s on %s { __typename }" % (n, root) for n in HISTORY_NAMES)
+    return "query OpX($zzv: Boolean = true, $zzUndefined: Boolean = true) { __typename @include(if: $zzv) @skip(if: $zzUndefined) %s } %s" % (
+        " ".join("...%s" % n for n in HISTORY_NAMES), frs)
+
+
+def history_pass(ctx, collect):
+    """The verdict of a document must not depend on what was validated EARLIER in the process (no state kept across
+    validations): every document of the run is validated a second time at the end, in shuffled order, a sample of them
+    right after a related valid document (`history_text`); outcome and reporting rules must equal the first validation."""
+    items = [it for it in collect if it[2]["outcome"] in ("ok", "errors")]
+    ctx.rng.shuffle(items)
+    # documents with name-based violations first, then a sample
+    items.sort(key=lambda it: 0 if any(k in it[3] for k in ("known_fragment_names", "unique_", "all_variable", "no_unused")) else 1)
+    cap = ctx.n(100, 700)
+    hist_ok = set()
+    for k, (world, text, first, label, feature) in enumerate(items[:cap]):
+        if ctx.tier == "quick" and ctx.time_left() < 18:
+            ctx.notes.append("history pass stopped after %d documents (time)" % k)
+            break
+        with_history = k % 2 == 0
+        htext = None
+        if with_history:
+            htext = history_text(world)
+            h = real_chain(world.schema, htext)
+            if h["outcome"] != "ok":
+                if id(world) not in hist_ok:
+                    ctx.stat("history-doc-not-valid:" + h["outcome"])
+                with_history = False
+                htext = None
+            hist_ok.add(id(world))
+        again = real_chain(world.schema, text)
+        ctx.count()
+        ctx.stat("history:" + ("after-related-document" if with_history else "shuffled-revalidation"))
+        if again["outcome"] != first["outcome"] or reporting(again) != reporting(first):
+            diff = sorted(set(reporting(again)) ^ set(reporting(first)))
+            ctx.fail("history-dependent:%s:%s" % (label.split(":")[0], "+".join(diff) or again["outcome"]),
+                     "the verdict of a document depends on documents validated earlier in the same process",
+                     {"kind": "history", "sdl": world.sdl, "text": text,
+                      "history": ([htext] if htext else []) + [t for (w, t, r, _, _) in collect
+                                                               if w is world and t != text and r["outcome"] in ("ok", "errors")][:60],
+                      "first": first["outcome"], "first_rules": reporting(first), "again": again["outcome"],
+                      "again_rules": reporting(again), "label": label, "feature": feature})
 
 
 def replay(ctx, data):
@@ -397,6 +450,13 @@ def replay(ctx, data):
             return res["outcome"] != "ok"
         exp = inp.get("expected_rules") or []
         return (not exp) or bool(set(exp) & set(reporting(res)))
+    if kind == "history":
+        # fresh process: isolated validation first, then the recorded history (or the document itself twice), then again
+        a = real_chain(schema, inp["text"])
+        for h in (inp.get("history") or [inp["text"]]):
+            real_chain(schema, h)
+        b = real_chain(schema, inp["text"])
+        return a["outcome"] == b["outcome"] and reporting(a) == reporting(b)
     if kind == "raises":
         return not real_verdict(schema, inp["text"]).startswith("raise")
     if kind == "transform":
